@@ -173,6 +173,8 @@ type dsSim struct {
 	connected      bool
 	stalled        bool
 	sinceProc      int
+	popped         wire.Block // a block popped by the processor but not yet processed (split step)
+	splitPct       int        // chance that a processor step is split at the pop
 	crashed        bool
 	between        func() // called between scheduling steps (adversary)
 }
@@ -248,7 +250,20 @@ func (s *dsSim) connect() {
 }
 
 // reconnect re-issues what Run does between two connections: save, reset the volatile state.
+// finishPopped completes a split processor step: Run waits for the processing goroutines (which
+// finish the block in hand) before it saves and reconnects or stops.
+func (s *dsSim) finishPopped() {
+	if s.popped != nil {
+		blk := s.popped
+		s.popped = nil
+		s.guard("block processor (after pop)", func() { s.e.finishStep(blk) })
+		s.afterStep("proc")
+		s.e.drain()
+	}
+}
+
 func (s *dsSim) reconnect() {
+	s.finishPopped()
 	s.e.node.blocks.Save(s.e.ctx)
 	s.e.node.txs.Save(s.e.ctx)
 	s.e.node.peers.Save(s.e.ctx)
@@ -353,7 +368,22 @@ func (s *dsSim) handle(m wire.Message) {
 func (s *dsSim) procStep() bool {
 	s.sinceProc = 0
 	stepped := false
-	s.guard("block processor step", func() { stepped = s.e.step() })
+	if s.popped != nil {
+		blk := s.popped
+		s.popped = nil
+		s.guard("block processor (after pop)", func() { stepped = s.e.finishStep(blk) })
+	} else if s.splitPct > 0 && s.r.Intn(100) < s.splitPct {
+		// only the pop now: the incoming goroutine gets to run before ProcessBlock
+		s.guard("block processor pop", func() { s.popped = s.e.node.state.NextBlock() })
+		if s.popped != nil {
+			s.tracef("processor popped a block (not yet processed)")
+			s.afterStep("pop")
+			return true
+		}
+		return false
+	} else {
+		s.guard("block processor step", func() { stepped = s.e.step() })
+	}
 	if !stepped {
 		return false
 	}
